@@ -4,6 +4,15 @@ import json, subprocess, sys
 
 CHECKS = {
  # id: (level, engine, technique, text, note, design_ref)
+ "C07": ("model_checking", "E2-programs", "bounded exhaustive program enumeration; reference EVM path enumeration validated path-by-path against the real VM's stored states",
+         "For every all-constant, stack-safe, loop-free program of the stated families the reference EVM enumerates all forced-branch paths; the real VM's stored final states are evaluated by an independent evaluator and must match the reference paths as a multiset of (stack, memory words, per-key ordered write lists). This is translation validation of each explored path, exhaustively over the bounded program space.",
+         "trusts ref_evm + evaluator + ref_u256; environment fixed to zero storage/memory; operands from the boundary set", "3/C07"),
+ "C08": ("model_checking", "E2-programs", "bounded exhaustive program enumeration; reference control-flow graph validated against the real VM's executed offsets",
+         "All token sequences up to length 5 (6 thorough) over 28 control-flow tokens covering every target kind named by the property; the executed-offset set of the real VM is compared with a reference EVM reachability computation (subset always, equality for loop-free code).",
+         "trusts ref_evm; JUMPDEST offsets are don't-cares in the equality direction (documented behaviour of JUMP)", "3/C08"),
+ "C17": ("model_checking", "E2-programs", "bounded exhaustive program enumeration x {strict, permissive}; reference EVM error events validated against both modes",
+         "All token sequences up to length 5 (6 thorough) over 26 error-provoking tokens plus stack-overflow and gas families; the reference EVM predicts the (class, offset) error events of all paths and both modes of the real VM and of analyze() are compared with the prediction.",
+         "trusts ref_evm; symbolic JUMP targets are don't-cares in strict mode", "3/C17"),
  "C09": ("exploration", "E1-flat", "bounded exhaustive enumeration of expression trees against a reference folder",
          "Every tree of the stated grammar (operators x boundary operand pairs; all trees to depth 3, wrapped and unwrapped) is folded by the real constant folder and compared structurally with a reference folder written on the harness's own tree type with independent 256-bit arithmetic; idempotence, size bookkeeping and totality are checked on each. Complete within the grammar, which contains every one-operator mistake (wrong constructor, wrong operand order, wrong boundary rule).",
          "trusts ref_u256 (cross-checked against Python big integers at setup) and the crate's PartialEq on values; says nothing about operands outside the boundary set", "3/C09"),
